@@ -26,3 +26,8 @@ VARIANTS = [
  dict(id='c08-silent-reference-count', prop='C08', kind='silent', file='scared/analysis/base.py', old="                self._batches_processed = [self._batches_processed[-1]]\n", new="                self._batches_processed = [self.processed_traces]\n"),
  dict(id='c08-silent-guard-commuted', prop='C08', kind='silent', file='scared/analysis/base.py', old="            if self._batches_processed[-1] - self._batches_processed[0] >= self.convergence_step:\n", new="            if self.processed_traces >= self._batches_processed[0] + self.convergence_step:\n"),
 ]
+
+VARIANTS += [
+ dict(id='c08-p6ref6-property-forgets-reference', prop='C08', base='P6-REF6', expect='C08-D4', file='scared/analysis/base.py',
+      old="        return self._last_mark - self._batches_processed[0]\n", new="        return self._last_mark\n"),
+]
